@@ -101,8 +101,19 @@ Twins == { << [name |-> "v13", kind |-> "ok", tg |-> Tagged(Variant(1, 3))], [na
            << [name |-> "to4", kind |-> "ok", tg |-> Tagged(TwinA)], [name |-> "to3", kind |-> "ok", tg |-> Tagged(TwinB)] >>,
            << [name |-> "to3", kind |-> "ok", tg |-> Tagged(TwinB)], [name |-> "to4", kind |-> "ok", tg |-> Tagged(TwinA)] >> }
 
+\* results at scale: counts and iteration numbers of four and five digits (1202 states, 2401
+\* transitions; tens of thousands of sweeps), numbers that print in exponent notation
+Fan(m) == [n |-> m + 2, owner |-> [s \in 1..(m + 2) |-> PR], reward |-> [s \in 1..(m + 2) |-> IF s = 1 THEN 1 ELSE 0],
+           tr |-> [s \in 1..(m + 2) |-> IF s = 1 THEN [k \in 1..m |-> Tr("", 1, k + 1)] ELSE <<Tr("", 1, m + 2)>>],
+           final |-> <<m + 2>>]
+Slow2000 == [n |-> 3, owner |-> <<PR, PR, PR>>, reward |-> <<1, 0, 0>>,
+             tr |-> << <<Tr("", 1998, 1), Tr("", 1, 2), Tr("", 1, 3)>>, <<Tr("", 1, 2)>>, <<Tr("", 1, 3)>> >>, final |-> <<3>>]
+Scale == { << [name |-> "slow_2000", kind |-> "ok", tg |-> Tagged(Slow2000)],
+              [name |-> "fan_1200", kind |-> "ok", tg |-> Tagged(Fan(1200))],
+              [name |-> "tiny", kind |-> "ok", tg |-> Tiny13b] >> }
+
 BatchCases ==
-    LET base == (IF Family = "all" THEN AllDicts ELSE RandomSubset(K, AllDicts)) \cup Twins \cup OwnFlag
+    LET base == (IF Family = "all" THEN AllDicts ELSE RandomSubset(K, AllDicts)) \cup Twins \cup OwnFlag \cup Scale
         q == SetToSeq(base)
     IN  [i \in 1..(Len(q) + 3) |->
             IF i > Len(q) + 1 THEN [games |-> <<>>, file |-> IF i = Len(q) + 2 THEN "empty_0" ELSE "no_games_yet"] ELSE
